@@ -34,8 +34,8 @@ from symx.core import Ctx, cur
 from symx.values import SInt
 
 _ANP = AbsNp()
-MARK = {'float': 1.5, 'int': 2, 'bool': True, 'str': 'ab'}
-NPDT = {'float': float, 'int': int, 'bool': bool, 'str': '<U3'}
+MARK = {'float': 1.5, 'int': 2, 'bool': True, 'str': 'ab', 'float32': 1.5, 'int8': 2, 'U1': 'a'}
+NPDT = {'float': float, 'int': int, 'bool': bool, 'str': '<U3', 'float32': np.float32, 'int8': np.int8, 'U1': '<U1'}
 
 
 @contextlib.contextmanager
@@ -95,7 +95,7 @@ def _make(cfg, symbolic: bool):
         names = ['status', 'iterations', 'X', 'W']
     kinds = {}
     for n in c.index:
-        kinds[n] = absnp.kind_of_dtype(c.__dict__['_' + n].dtype)
+        kinds[n] = absnp.tag_of_dtype(c.__dict__['_' + n].dtype)
         if symbolic:
             c.__dict__['_' + n] = AbsArr((L,), kinds[n], token=f'orig_{n}')
     return c, kinds
@@ -116,6 +116,7 @@ def scenario(cfg, symbolic: bool, dims: Optional[dict] = None) -> List[str]:
     before = {n: c.__dict__['_' + n] for n in c.index}
     before_copy = {n: (None if symbolic else c.__dict__['_' + n].copy()) for n in c.index}
     idx0 = list(c.index)
+    names0 = list(getattr(c, 'names', []))
     operand = _operand(cfg['operand'], symbolic, dims) if cfg['operand'] is not None else None
     twin = cfg.get('twin')
     single = True
@@ -161,7 +162,7 @@ def scenario(cfg, symbolic: bool, dims: Optional[dict] = None) -> List[str]:
         r = _run(lambda: c.__setitem__(('X', slice(2000, 2000 + L - 1, cfg.get('step'))), operand))
     elif op == 'replace_values':
         single = False
-        r = _run(lambda: c.replace_values(X=operand, W=MARK[kinds['W']]))
+        r = _run(lambda: c.replace_values(X=operand, W=MARK[absnp.TAGS[kinds['W']]]))
     elif op == 'values_array':
         single = False
         r = _run(lambda: setattr(c, 'values', operand))
@@ -195,7 +196,7 @@ def scenario(cfg, symbolic: bool, dims: Optional[dict] = None) -> List[str]:
         bad.append(f'strict near-miss name is not reported with the closest variable: {r[2]!r}')
     # invariant / frame
     if r[0] == 'exc' and single:
-        if list(c.index) != idx0:
+        if list(c.index) != idx0 or list(getattr(c, 'names', [])) != names0:
             bad.append('a rejected operation changed the list of variables')
         for n in idx0:
             now = c.__dict__['_' + n]
@@ -216,15 +217,15 @@ def scenario(cfg, symbolic: bool, dims: Optional[dict] = None) -> List[str]:
                 continue
             if cur()._check(now.dims[0] != L) == 'sat':
                 bad.append(f'series {n} does not have one element per period after {op}')
-            if want_kind is not None and now.kind != want_kind:
-                bad.append(f'series {n} changed dtype {want_kind} -> {now.kind}')
+            if want_kind is not None and now.tag != want_kind:
+                bad.append(f'series {n} changed dtype {want_kind} -> {now.tag}')
         else:
             if now.ndim != 1 or now.shape != (L,):
                 bad.append(f'series {n} has shape {now.shape} after {op} (span has {L} periods)')
-            if want_kind is not None and absnp.kind_of_dtype(now.dtype) != want_kind:
+            if want_kind is not None and absnp.tag_of_dtype(now.dtype) != want_kind:
                 bad.append(f'series {n} changed dtype {want_kind} -> {now.dtype}')
     # values / size
-    if not bad:
+    if True:
         k = len(c.index) if cfg['cls'] == 'container' else len(c.names)
         if c.size != k * L:
             bad.append(f'size {c.size} != {k} x {L}')
@@ -233,8 +234,10 @@ def scenario(cfg, symbolic: bool, dims: Optional[dict] = None) -> List[str]:
                 v = _run(lambda: c.values)
             if v[0] != 'ret' or not isinstance(v[1], AbsArr) or v[1].ndim != 2 or cur()._check(z3.Or(v[1].dims[0] != k, v[1].dims[1] != L)) == 'sat':
                 bad.append(f'values is not the {k} x {L} stack: {v[:2] if v[0] == "exc" else v[1]}')
-        elif k and np.asarray(c.values).shape != (k, L):
-            bad.append(f'values has shape {np.asarray(c.values).shape}, expected {(k, L)}')
+        elif k:
+            v = _run(lambda: np.asarray(c.values).shape)
+            if v[0] != 'ret' or v[1] != (k, L):
+                bad.append(f'values is not the {k} x {L} stack: {v[1]}')
     return bad
 
 
@@ -296,6 +299,8 @@ def configs(tier: str):
     operands += [('seq', 1, k) for k in ('float', 'int', 'bool')] + [('seq', 2, 'float'), ('seq', 2, 'int'), ('seq', 1, 'float', 'tuple'),
                                                                          ('seq', 1, 'int', 'range')]
     operands += [('arr', r, k) for r in (0, 1, 2) for k in ('float', 'int', 'bool')] + [('arr', 1, 'str')]
+    # same family, different width (a dtype-preserving container must cast these back)
+    operands += [('arr', 1, 'float32'), ('arr', 1, 'int8'), ('arr', 1, 'U1'), ('arr', 2, 'float32')]
     kinds_sets = [('float', 'int'), ('bool', 'str'), ('int', 'float')]
     for cls in ('container', 'model'):
         for L in Ls:
